@@ -31,7 +31,7 @@ def register(reg, S):
     reg.add(Contract(
         "chartparse.sync:BPMEvents.__post_init__", params=dict(self=BES), result=NONE,
         raises={"ValueError": f"self.resolution <= 0 or {n} == 0 or self.events[0].tick != 0"},
-        props=["C15", "C11"]))
+        props=["C15", "C11", "C03", "C16"]))
     reg.add(Contract(
         "chartparse.sync:BPMEvents._index_of_proximal_event",
         params=dict(self=BES, tick=INT, start_iteration_index=INT), result=INT,
@@ -116,10 +116,10 @@ def register(reg, S):
             ("first", "implies(prev_event is None, result.timestamp == us(0) and result._proximal_bpm_event_index == 0)"),
             ("chain", "implies(prev_event is not None, result.timestamp == prev_event.timestamp + TDF(SEC(data.tick - prev_event.tick, prev_event.bpm, resolution)) and result._proximal_bpm_event_index == prev_event._proximal_bpm_event_index + 1)"),
         ],
-        props=["C01", "C08", "C12", "C15", "C11"],
+        props=["C01", "C08", "C12", "C15", "C11", "C03", "C16"],
         # the decoded tempo value is C08's statement (and the BPM of C01's formula); the timestamp chain is C01/C11/C12/C15's
-        clause_props={"bpm-nearest-float": ["C08", "C01"], "first": ["C01", "C11", "C12", "C15"], "chain": ["C01", "C11", "C12", "C15"],
-                      "must-raise": ["C15", "C11"]}))
+        clause_props={"bpm-nearest-float": ["C08", "C01"], "first": ["C01", "C03", "C11", "C12", "C15", "C16"],
+                      "chain": ["C01", "C03", "C11", "C12", "C15", "C16"], "must-raise": ["C15", "C11", "C03", "C16"]}))
     reg.add(Contract(
         "chartparse.sync:TimeSignatureEvent.from_parsed_data",
         params=dict(cls=_cls("chartparse.sync:TimeSignatureEvent"), data=S["TSData"],
